@@ -34,6 +34,8 @@ POOLS = {
     'distinct': [1.0, 2.0, 3.0, 0.5, 5.0, 0.25, 7.0, 8.0, 9.0],
     'ties': [2.0, 2.0, 1.0, 2.0, 1.0, 1.0, 3.0, 3.0, 2.0],
     'negative': [1.0, -2.0, 3.0, -0.5, 5.0, 0.25, -7.0, 8.0, -9.0],
+    # magnitudes at and below 1e-8, sub-normal totals (a reciprocal would overflow), one huge value
+    'tiny': [1e-9, 2.5e-10, 1e-310, 3e-310, 2e-9, 5e-324, 1e-8, 4e-310, 3e-9],
 }
 TRANSFORM_OPS = ('transform2', 'transform_zero', 'norm', 'rank', 'pa')
 TIE_METHODS = ('average', 'min', 'max', 'dense', 'ordinal')
@@ -174,7 +176,7 @@ def check(case, acc, tmp):
                 else:
                     acc.count('clause:function-args')
                 exp = m0.transform(ax, mf)
-                ok = judge(r, exp, 'transform', tol=(fname == 'relsum'), **kw)
+                ok = judge(r, exp, 'transform', tol=(fname == 'relsum' or case['pool'] == 'tiny'), **kw)
                 if not inpl:
                     # "in place or not": the copying variant must leave the table it was called on alone
                     acc.evals += 1
@@ -193,12 +195,12 @@ def check(case, acc, tmp):
                 acc.trans += 1
                 try:
                     r = t.norm(axis=ax, inplace=inpl)
-                    if judge(r, m0.norm(ax), 'norm', axis=ax, inplace=inpl):
+                    if judge(r, m0.norm(ax), 'norm', tol=(case['pool'] == 'tiny'), axis=ax, inplace=inpl):
                         rm = OPS.adopt(r)
                         for k in range(len(ids)):
                             tot = sum(m0.vec(ax, k))
                             s = sum(rm.vec(ax, k))
-                            if tot > 0 and abs(s - 1.0) > 1e-12:
+                            if tot > 0 and abs(s - 1.0) > (1e-12 if case['pool'] != 'tiny' else 1e-9):
                                 bad('norm:sum', 'vector %s sums to %r after norm' % (ids[k], s), axis=ax, inplace=inpl)
                 except Exception as e:
                     bad('norm:raised', 'norm raised %s: %s' % (type(e).__name__, e), axis=ax, inplace=inpl)
@@ -212,7 +214,16 @@ def check(case, acc, tmp):
                     bad('rankdata:raised', 'rankdata(%s) raised %s: %s' % (method, type(e).__name__, e),
                         axis=ax, inplace=inpl, method=method)
                     continue
-                if method != 'ordinal':
+                if method == 'ordinal' and case['layout'] in ('csr', 'csc'):
+                    # ties are ranked in the order in which they occur along the vector
+                    def occ(v, i, mdd):
+                        order = sorted(range(len(v)), key=lambda k: (v[k], k))
+                        out = [0.0] * len(v)
+                        for rank, k in enumerate(order):
+                            out[k] = float(rank + 1)
+                        return out
+                    judge(r, m0.transform(ax, occ), 'rankdata', axis=ax, inplace=inpl, method=method)
+                elif method != 'ordinal':
                     judge(r, m0.transform(ax, lambda v, i, mdd: my_rank(v, method)), 'rankdata',
                           axis=ax, inplace=inpl, method=method)
                 else:
